@@ -1,4 +1,82 @@
-From Coq Require Import List ZArith QArith Bool.
+(* C04 Operator equality is an equivalence compatible with hashing and matrices.
+   Statements only; every proof is `exact <lemma>` from Disc/EqualProofs.v.
+   `equal_item rtol atol` is the Gallina transcription of qp.equal (Disc/EqualModel.v). *)
+From Coq Require Import List ZArith QArith Qabs Qminmax Bool.
 From PLV Require Import Disc.EqualModel Disc.EqualProofs.
-Theorem placeholder : true = true. Proof. exact placeholder_true. Qed.
-Print Assumptions placeholder.
+Import ListNotations.
+
+(* qp.equal holds for every operator / measurement process compared with itself (tolerances >= 0) *)
+Theorem equal_refl : forall rtol atol, (0 <= rtol)%Q -> (0 <= atol)%Q ->
+  forall a : item, equal_item rtol atol a a = true.
+Proof. exact equal_refl_item. Qed.
+Print Assumptions equal_refl.
+
+(* the asymmetry window of allclose, exactly: close a b holds and close b a fails iff
+   atol + rtol|a| < |a-b| <= atol + rtol|b| *)
+Theorem allclose_asym_window : forall rtol atol a b,
+  (close rtol atol a b = true /\ close rtol atol b a = false) <->
+  (atol + rtol * Qabs a < Qabs (a - b) /\ Qabs (a - b) <= atol + rtol * Qabs b)%Q.
+Proof. exact close_asym_window. Qed.
+Print Assumptions allclose_asym_window.
+
+(* `far`: equal, or farther apart than atol + rtol*|.| measured from either side;
+   implied by |a-b| > atol + rtol*max(|a|,|b|) and a fortiori by the factor-2 bound of the property *)
+Theorem far_from_max_bound : forall rtol atol a b, (0 <= rtol)%Q ->
+  (atol + rtol * Qmax (Qabs a) (Qabs b) < Qabs (a - b))%Q -> far rtol atol a b.
+Proof. exact far_of_max. Qed.
+Print Assumptions far_from_max_bound.
+
+Theorem far_from_twice_max_bound : forall rtol atol a b, (0 <= rtol)%Q -> (0 <= atol)%Q ->
+  (2 * (atol + rtol * Qmax (Qabs a) (Qabs b)) < Qabs (a - b))%Q -> far rtol atol a b.
+Proof. exact far_of_twice_max. Qed.
+Print Assumptions far_from_twice_max_bound.
+
+(* same answer in both argument orders whenever every pair of numeric fields (parameters, scalars,
+   coefficients, eigenvalues) of the two objects is identical or outside the tolerance window;
+   all structural differences (class, wires, hyperparameters, control values, exponents, operand
+   lists) are covered without any hypothesis *)
+Theorem equal_sym_when_far_or_identical : forall rtol atol (a b : item),
+  all_far rtol atol (nums_item a) (nums_item b) ->
+  equal_item rtol atol a b = equal_item rtol atol b a.
+Proof. exact equal_sym_item. Qed.
+Print Assumptions equal_sym_when_far_or_identical.
+
+(* objects built from identical data are equal (in both orders) *)
+Theorem same_data_equal : forall rtol atol, (0 <= rtol)%Q -> (0 <= atol)%Q ->
+  forall a b : item, a = b -> equal_item rtol atol a b = true /\ equal_item rtol atol b a = true.
+Proof. exact same_data_equal_item. Qed.
+Print Assumptions same_data_equal.
+
+(* with rtol = atol = 0, equality forces the same structure up to the documented normalisations:
+   Identity ignores wires, control wires are a wire->value map, Sum/Prod operands are compared after
+   the class's _sort, equal pauli_rep short-cuts SProd/Sum/Prod (same_struct in EqualProofs.v) *)
+Theorem equal_exact_implies_same_structure : forall a b : item,
+  equal_item 0 0 a b = true -> same_struct_item a b.
+Proof. exact equal_exact_same_struct_item. Qed.
+Print Assumptions equal_exact_implies_same_structure.
+
+(* ---- non-vacuity *)
+Open Scope Q_scope.
+(* an asymmetric pair exists: rtol = 1/4, atol = 1/8, a = 1, b = 7/5 *)
+Example asym_window_inhabited :
+  close (1#4) (1#8) 1 (7#5) = true /\ close (1#4) (1#8) (7#5) 1 = false.
+Proof. vm_compute. split; reflexivity. Qed.
+
+(* hence qp.equal itself is not symmetric inside the window (RX(1) vs RX(7/5)) ... *)
+Example equal_not_symmetric_inside_window :
+  let a := IOp (Plain 5 [[1]] [0%Z] 1) in let b := IOp (Plain 5 [[7#5]] [0%Z] 1) in
+  equal_item (1#4) (1#8) a b = true /\ equal_item (1#4) (1#8) b a = false.
+Proof. vm_compute. split; reflexivity. Qed.
+
+(* ... and the hypothesis of the symmetry theorem is satisfiable by genuinely different data *)
+Example far_inhabited : all_far (1#4) (1#8) [1] [3].
+Proof.
+  intros x y [<- | []] [<- | []]. apply far_from_max_bound; [discriminate | vm_compute; reflexivity].
+Qed.
+
+(* operand order of a product of factors on different wires is normalised away (keys 0 < 1) *)
+Example prod_order_normalised :
+  let x := Plain 7 [] [0%Z] 1 in let y := Plain 8 [] [1%Z] 1 in
+  equal 0 0 (Comp 3 SORT_PROD None [(0%Z, [0%Z], x); (1%Z, [1%Z], y)])
+            (Comp 3 SORT_PROD None [(1%Z, [1%Z], y); (0%Z, [0%Z], x)]) = true.
+Proof. vm_compute. reflexivity. Qed.
